@@ -19,8 +19,9 @@ cloudsync.sync.state.time:
        /repo 5c0d808 (a revert is reported as a VIOLATION with that replay); the witnesses of the open known
        finding C17-last-notification-either-side, one of them replayed end to end on the real engine
        (CloudSync over two MockProviders, virtual clock in state/manager/mock/event).
-change() is compared and judged with now = max(clock, _last_changed_time) as the code computes it since
-5c0d808; the table stream sets _last_changed_time directly (below, at and above the clock reading).
+change() is compared and judged with the threshold the code computes since 5c0d808 + ed9e461 (now - age on the
+clock; raised to _last_changed_time when age <= 0); the table stream sets _last_changed_time directly (below,
+at and above the clock reading) and uses ages > 0, = 0 and < 0.
 All values are compared as exact rationals; no float is ever compared or printed into a case id."""
 import glob
 import json
@@ -159,13 +160,12 @@ def truthy(v):
 
 
 # ------------------------------------------------------------------ the laws, on real values
-def eff_now_py(now, last):
-    """now = max(time.time(), self._last_changed_time)   (/repo 5c0d808)"""
-    return F(max(float(now), float(last)))
-
-
 def real_et(now, age, last):
-    return F(max(float(now), float(last)) - float(age))      # what the code computes
+    """what the code computes (/repo 5c0d808 + ed9e461): now - age, raised to _last_changed_time when age <= 0"""
+    et = float(now) - float(age)
+    if float(age) <= 0:
+        et = max(et, float(last))
+    return F(et)
 
 
 def key_of(pri, chl, chr_):
@@ -201,9 +201,9 @@ def laws_on_pick(rows, pick, now, age, last):
         pri, chl, chr_ = rows[pick]
         if F(pri) >= 0 and not ((chl and F(chl) <= et) or (chr_ and F(chr_) <= et)):
             bad.append("not_before_aged")
-    if F(age) == 0 and rows:
-        # C17_age_zero_eligible / C17_age_zero_change_some: a truthy stamp <= max(clock, last change stamp)
-        en = eff_now_py(now, last)
+    if F(age) <= 0 and rows:
+        # C17_age_zero_eligible / C17_age_zero_change_some: a truthy stamp <= last change stamp (or <= now - age)
+        en = max(F(last), F(float(now) - float(age)))
         due = [bool((r[1] and F(r[1]) <= en) or (r[2] and F(r[2]) <= en)) for r in rows]
         if any(d and not e for d, e in zip(due, el)) or (any(due) and pick is None):
             bad.append("age_zero_eligible")
@@ -217,7 +217,7 @@ PRI_POOL = [0, 0, 0, 0, 0, 1, 1, 2, 3, 5, -1, -1, -2, 0.1, -0.1, 0.5, 1.1, 2.5, 
 def gen_table(rng):
     n = rng.choice([1, 1, 2, 2, 3, 3, 4, 5, 6, 8, 10, 12])
     base = rng.choice([0.0, 1.0, 100.0, 1000.5, 1700000000.0, 4096.25])
-    age = rng.choice([0, 0, 0.002, 0.25, 1, 1, 5, 5, 0.01, 30, rng.randrange(0, 64) / 8.0])
+    age = rng.choice([0, 0, 0.002, 0.25, 1, 1, 5, 5, 0.01, 30, rng.randrange(0, 64) / 8.0, -1, -0.25])
     now = base + rng.choice([0, 1, 5, 5.25, 10, 0.002, rng.randrange(0, 200) / 16.0])
     et = now - age
 
@@ -593,7 +593,7 @@ def gen_sequence(rng):
                 continue
             op = ["clearoid", i, rng.choice(sides)]
         else:
-            age = rng.choice([0, 0, 0.25, 1, 1, 2, 5, 0.0009765625, grid(rng, 0, 8)])
+            age = rng.choice([0, 0, 0.25, 1, 1, 2, 5, 0.0009765625, grid(rng, 0, 8), -0.5])
             op = ["change", q_js(tick()), q_js(age)]
         ops.append(op)
         stop = exec_one(real, op, trace)
@@ -886,7 +886,7 @@ def case_laws(case, rows, pick):
         if law == "age_zero_every_pending_change_eligible":
             lst = js_q(case.get("last", [1, 1]))
             et = real_et(js_q(case["now"]), js_q(case["age"]), lst)
-            en = eff_now_py(js_q(case["now"]), lst)
+            en = max(F(lst), F(js_q(case["now"])))
             due = [r for r in rows if (truthy(r[1]) and F(r[1]) <= en) or (truthy(r[2]) and F(r[2]) <= en)]
             if F(js_q(case["age"])) == 0 and due and (pick is None or any(not eligible_py(et, *r) for r in due)):
                 bad.append(law)
@@ -902,7 +902,7 @@ def case_laws_seq(case, trace):
                     # every pending change whose stamp is not ahead of max(clock, last change stamp) -- i.e. every
                     # stamp written by mark_changed and not punted since -- is eligible, and change(0) picks something
                     et = real_et(js_q(op[1]), 0, res["pre_last"])
-                    en = eff_now_py(js_q(op[1]), res["pre_last"])
+                    en = max(F(res["pre_last"]), F(js_q(op[1])))
                     due = [r for r in res["pre_rows"]
                            if (truthy(r[1]) and F(r[1]) <= en) or (truthy(r[2]) and F(r[2]) <= en)]
                     if due and (res["pick"] is None or any(not eligible_py(et, *r) for r in due)):
